@@ -77,6 +77,110 @@ fn gen_value(g: &mut G, max: usize) -> Vec<u8> {
     v
 }
 
+/// Two heads on one connection: the caller announces `Expect: 100-continue`, the server answers the request
+/// head with an interim `100 Continue` head and then the final head - in one segment, in two, or split
+/// anywhere.  Whether a client reports the interim head (this one does) or skips it, the status and the
+/// fields it reports must be those of *one of the heads the server sent*: reading the first head must not
+/// eat into, or lose, the octets of the second.
+fn expect_family(g: &mut G, ctx: &RunCtx) -> RunReport {
+    use std::net::IpAddr;
+    use std::sync::{Arc, Mutex};
+    g.probe("interim-100-head-before-the-final-head");
+    let mk_fields = |g: &mut G, n: usize, tag: &str| -> Vec<(String, Vec<u8>)> { (0..n).map(|i| (format!("X-{}-{}", tag, i), gen_value(g, 40).into_iter().filter(|b| *b != b'\n').collect())).collect() };
+    let n1 = g.usize_below(3);
+    let interim = mk_fields(g, n1, "Interim");
+    let status = *g.pick(&[200u16, 201, 404, 500]);
+    let n2 = g.range(1, 5) as usize;
+    let mut fin = mk_fields(g, n2, "Final");
+    fin.push(("Content-Length".to_string(), b"0".to_vec()));
+    let enc = |st: u16, reason: &str, f: &[(String, Vec<u8>)]| -> Vec<u8> {
+        let mut w = format!("HTTP/1.1 {} {}\r\n", st, reason).into_bytes();
+        for (n, v) in f {
+            w.extend_from_slice(n.as_bytes());
+            w.extend_from_slice(b": ");
+            w.extend_from_slice(v);
+            w.extend_from_slice(b"\r\n");
+        }
+        w.extend_from_slice(b"\r\n");
+        w
+    };
+    let h1 = enc(100, "Continue", &interim);
+    let h2 = enc(status, "Done", &fin);
+    let mut wire = h1.clone();
+    wire.extend_from_slice(&h2);
+    let targets = vec![h1.len(), h1.len() - 1, h1.len() + 1, h1.len() + 41.min(h2.len() - 1), wire.len() - 1];
+    let (segs, seg_name) = gen::segmentation(g, wire.len(), &targets);
+    let script = Script::from_wire(&wire, &segs, End::Fin);
+    let sim = attosim::Sim::new(ctx.sim_config());
+    let ip: IpAddr = bodyx::HOST_IP.parse().unwrap();
+    let seen = Arc::new(Mutex::new(crate::peers::Seen::default()));
+    {
+        let script = script.clone();
+        let seen = seen.clone();
+        sim.add_listener(
+            ip,
+            80,
+            attosim::ConnectBehaviour::Accept { latency_ns: attosim::NS_PER_MS },
+            Some(Box::new(move |_i| {
+                let script = script.clone();
+                let mut p = crate::peers::HttpPeer::new(Arc::new(move |_r, _c| script.clone()), seen.clone());
+                // a server answers an Expect as soon as it has the request head
+                p.when = crate::peers::RespondWhen::HeadComplete;
+                Box::new(p)
+            })),
+        );
+    }
+    let body_len = *g.pick(&[0usize, 5, 20_000]);
+    let out = sim.run(|| {
+        let rb = attohttpc::post(format!("http://{}/upload", bodyx::HOST_IP)).header("Expect", "100-continue").bytes(vec![b'u'; body_len]);
+        match rb.send() {
+            Err(e) => Err(err_kind(&e)),
+            Ok(resp) => {
+                let headers = resp.headers().clone();
+                let mut got: Vec<(String, Vec<u8>)> = Vec::new();
+                for k in headers.keys() {
+                    for v in headers.get_all(k) {
+                        got.push((k.as_str().to_string(), v.as_bytes().to_vec()));
+                    }
+                }
+                Ok((resp.status().as_u16(), got))
+            }
+        }
+    });
+    let mut stats = Stats::default();
+    stats.absorb(&out.history);
+    let same = |got: &[(String, Vec<u8>)], want: &[(String, Vec<u8>)]| -> bool {
+        let mut a: Vec<(String, Vec<u8>)> = got.to_vec();
+        let mut b: Vec<(String, Vec<u8>)> = want.iter().map(|(n, v)| (n.to_ascii_lowercase(), expected_value(v))).collect();
+        a.sort();
+        b.sort();
+        a == b
+    };
+    let verdict = match &out.result {
+        None => violation("hang", "torn down"),
+        Some(Err(m)) => violation("panic", m.clone()),
+        Some(Ok(Err(e))) => violation(format!("valid-head-rejected:{}:after-interim-head", e), format!("send() failed with {} although the server sent two well-formed heads (100 Continue, then {}) split as {}", e, status, seg_name)),
+        Some(Ok(Ok((st, got)))) => {
+            if (*st == 100 && same(got, &interim)) || (*st == status && same(got, &fin)) {
+                Verdict::Pass
+            } else {
+                violation(
+                    "reported-head-is-neither-head-sent",
+                    format!("status {} with fields {:?} reported; the server sent 100 with {:?} and then {} with {:?} (split {})", st, got.iter().map(|(n, v)| (n.clone(), short(v))).collect::<Vec<_>>(), interim.iter().map(|(n, _)| n.clone()).collect::<Vec<_>>(), status, fin.iter().map(|(n, _)| n.clone()).collect::<Vec<_>>(), seg_name),
+                )
+            }
+        }
+    };
+    RunReport {
+        verdict,
+        shape: format!("expect/{}/{}/{}/seg={}/body={}", n1, n2, status, seg_name, body_len),
+        nontrivial: true,
+        stats,
+        sched_tape: out.sched_tape,
+        describe: if ctx.describe { format!("Expect: 100-continue; interim head {}B + final head {}B (status {}), seg={}", h1.len(), h2.len(), status, seg_name) } else { String::new() },
+    }
+}
+
 pub fn scenario(g: &mut G, ctx: &RunCtx) -> RunReport {
     let status = match g.below(4) {
         0 => *g.pick(&[100u16, 199, 200, 204, 304, 404, 500, 599, 600, 999, 101, 226]),
@@ -180,6 +284,10 @@ pub fn scenario(g: &mut G, ctx: &RunCtx) -> RunReport {
     let use_split = g.chance(1, 3);
     // the status helpers must agree with the code itself
     let use_efs = g.chance(1, 4);
+    // drawn last: recorded tapes keep their meaning
+    if g.chance(1, 12) {
+        return expect_family(g, ctx);
+    }
     let ran = bodyx::run_origin(&script, &faults, ctx, || {
         let mut rb = attohttpc::get(format!("http://{}/h", bodyx::HOST_IP)).follow_redirects(false);
         if let Some(m) = max_headers {
